@@ -145,6 +145,45 @@ def main():
     return gradients_vs_finite_differences()
 
 
+def waveform_parameter_gradients():
+    """the clause 'numeric parameters of Pulser waveforms' through the whole pipeline (pulser sequence -> PulserData ->
+    SVBackend): two atoms on two local channels, each with its own parameters; at a generic point and at the
+    symmetric point where both channels carry equal numbers (still independent parameters).  Adapted from the
+    demonstration of seed C30-c, written by an independent sub-agent."""
+    import torch
+    import pulser
+    from emu_sv import SVConfig, SVBackend, Occupation
+    names = ["amp q0", "amp q1", "det q0", "det q1", "phase q0", "phase q1"]
+
+    def loss_fn(p):
+        reg = pulser.Register({"q0": (-3.5, 0.0), "q1": (3.5, 0.0)})
+        seq = pulser.Sequence(reg, pulser.MockDevice)
+        seq.declare_channel("ch0", "rydberg_local", initial_target="q0")
+        seq.declare_channel("ch1", "rydberg_local", initial_target="q1")
+        for k, ch in enumerate(("ch0", "ch1")):
+            amp = pulser.waveforms.ConstantWaveform(120, p[0 + k])
+            det = pulser.waveforms.ConstantWaveform(120, p[2 + k])
+            seq.add(pulser.Pulse(amp, det, p[4 + k]), ch, protocol="no-delay")
+        cfg = SVConfig(dt=10, krylov_tolerance=1e-12, observables=[Occupation(evaluation_times=[1.0])], gpu=False,
+                       log_level=1000)
+        occ = SVBackend(seq, config=cfg).run().occupation[-1]
+        return occ[0] + 0.3 * occ[1]
+    for label, values in (("distinct values", [6.0, 4.5, -2.0, 1.5, 0.3, 0.7]),
+                          ("equal values on both atoms", [6.0, 6.0, -2.0, -2.0, 0.3, 0.3])):
+        p = torch.tensor(values, dtype=torch.float64, requires_grad=True)
+        (ad,) = torch.autograd.grad(loss_fn(p), p)
+        eps = 1e-5
+        for k in range(len(values)):
+            e = torch.zeros(len(values), dtype=torch.float64)
+            e[k] = eps
+            with torch.no_grad():
+                fd = (loss_fn(p.detach() + e) - loss_fn(p.detach() - e)) / (2 * eps)
+            if not bool(torch.isfinite(ad[k])) or abs(ad[k] - fd) > 1e-6 + 1e-5 * abs(fd):
+                return (f"two atoms on two local channels, waveform parameters {values} ({label}): d loss / d {names[k]} = "
+                        f"{ad[k].item():+.6e} by autograd, {float(fd):+.6e} by central differences")
+    return None
+
+
 def gradients_vs_finite_differences():
     """the property itself on a small emu-sv run (2 atoms, 3 steps, per-step drives as autograd leaves): the
     autograd gradient of a loss built from the results equals its central finite difference -- final-time and
@@ -210,6 +249,10 @@ def gradients_vs_finite_differences():
             elif bad:
                 print(f"REPRODUCED: emu-sv, 2 atoms, 3 steps, per-step drives as autograd leaves: {where}: {bad}")
                 return 1
+    bad = waveform_parameter_gradients()
+    if bad:
+        print("REPRODUCED: " + bad)
+        return 1
     print("NOT-REPRODUCED: autograd gradients of occupation / energy losses equal central finite differences (1e-6) for "
           "per-step amplitudes, detunings and phases, also with intermediate evaluation times and a non-normalised "
           "initial state")
